@@ -72,6 +72,10 @@ def limbBound (full resSize rb ib off : Nat) : Nat := min full (ceilDiv (resSize
 def limbBoundWorst (full resSize rb ib : Nat) : Nat := limbBound full resSize rb ib (ib - 1)
 /-- `cnv_offset_hi` of the `(hi, lo)` split of a bit offset -/
 def cnvHi (off ib : Nat) : Nat := if off < ib then 0 else off / ib - 1
+/-- `usize` subtraction as compiled in release mode: it wraps (the bodies compute `a_size + b_size - cnv_offset_hi`
+without checking that the offset lies inside the product) -/
+def wsub (x y : Nat) : Nat := if y ≤ x then x - y else x + 2 ^ 64 - y
+
 /-- the `offset_bits` that `normalize_input_limb_bound_with_offset` derives from `cnv_offset_lo`
 (`lo = −(ib − off % ib)` below one limb, `off % ib` otherwise: both give `off % ib`) -/
 def cnvLoBits (off ib : Nat) : Nat := off % ib
@@ -101,7 +105,7 @@ def tbGlweMulPlainOld (be : BE) (n : Nat) (res a : G) (bSize : Nat) : Nat :=
 counts `ceil(effective_k / base2k)`; the accumulator has `ea + eb − cnv_offset_hi` limbs -/
 def treeGlweMulPlain (be : BE) (n off : Nat) (res a : G) (bSize ea eb : Nat) : AllocTree :=
   let cols := res.rank + 1
-  let rd := ea + eb - cnvHi off a.b2k
+  let rd := wsub (ea + eb) (cnvHi off a.b2k)
   .need (tbGlweMulPlain be n res a bSize)
     (.take (cnvBytes be n cols ea)
       (.take (cnvBytes be n 1 eb)
@@ -112,7 +116,7 @@ def treeGlweMulPlain (be : BE) (n off : Nat) (res a : G) (bSize ea eb : Nat) : A
 `glwe_mul_plain_tmp_bytes(res, res, a)`; left operand `er = ceil(res_effective_k / base2k)` limbs -/
 def treeGlweMulPlainAssign (be : BE) (n off : Nat) (res : G) (aSize er ea : Nat) : AllocTree :=
   let cols := res.rank + 1
-  let rd := ea + er - cnvHi off res.b2k
+  let rd := wsub (ea + er) (cnvHi off res.b2k)
   .need (tbGlweMulPlain be n res res aSize)
     (.take (cnvBytes be n cols er)
       (.take (cnvBytes be n 1 ea)
@@ -138,7 +142,7 @@ accumulator of `min(ea + eb − hi, ceil((res.size·rb + off % ib) / ib))` limbs
 one-column temporary and the normalisation on what is left -/
 def treeGlweTensorApply (be : BE) (n off : Nat) (res a : G) (bSize ea eb : Nat) : AllocTree :=
   let cols := res.rank + 1
-  let dd := limbBound (ea + eb - cnvHi off a.b2k) res.size res.b2k a.b2k (cnvLoBits off a.b2k)
+  let dd := limbBound (wsub (ea + eb) (cnvHi off a.b2k)) res.size res.b2k a.b2k (cnvLoBits off a.b2k)
   let tail := AllocTree.take (vecBytes n 1 res.size) (treeBigNormalize be n)
   .need (tbGlweTensorApply be n res a bSize)
     (.take (cnvBytes be n cols ea)
@@ -173,7 +177,7 @@ def tbGlweTensorSquare (be : BE) (n : Nat) (res a : G) : Nat :=
 /-- `glwe_tensor_square_apply`: the self-preparation runs before the diagonal cache is taken -/
 def treeGlweTensorSquare (be : BE) (n off : Nat) (res a : G) (ea : Nat) : AllocTree :=
   let cols := res.rank + 1
-  let dd := limbBound (2 * ea - cnvHi off a.b2k) res.size res.b2k a.b2k (cnvLoBits off a.b2k)
+  let dd := limbBound (wsub (2 * ea) (cnvHi off a.b2k)) res.size res.b2k a.b2k (cnvLoBits off a.b2k)
   .need (tbGlweTensorSquare be n res a)
     (.take (cnvBytes be n cols ea)
       (.take (cnvBytes be n cols ea)
